@@ -216,6 +216,12 @@ impl FixedMethod {
             // Emoji addition with Emoticons.
             if let Some(emoji) = data.get_emoji_by_emoticon(&self.typed) {
                 self.suggestions.push(Rank::emoji(emoji.to_owned()));
+            } else if let Some(emojis) = data.get_emoji_by_bengali(&self.buffer) {
+                // The whole text is an emoji name, some names are punctuation marks (e.g. `#`).
+                let emojis = emojis
+                    .zip(1..)
+                    .map(|(s, r)| Rank::emoji_ranked(s.to_owned(), r));
+                self.suggestions.extend(emojis);
             } else if let Some(emojis) = data.get_emoji_by_bengali(word) {
                 // Emoji addition with it's Bengali name.
                 // Add preceding and trailing meta characters.
